@@ -5,7 +5,27 @@ import os
 ROOT = os.path.dirname(os.path.dirname(os.path.abspath(__file__)))
 ALL = ["C%02d" % i for i in range(1, 20)]
 
+PARSE_NOTE = ("Trusted: TLC, the JSON reader, the recorder's verbatim copy of spans. Exhaustive only up to the stated string "
+              "length; longer inputs are the repository's own recipes and seeded random splices.")
+
 CHECKS = {
+    "C04": dict(
+        text="The lexer is specified as a token-at-a-time machine (spec/CookLexer.tla); TLC explores it exhaustively over "
+             "every string of the 35-symbol token alphabet up to length 3 (4-5 over a reduced alphabet), checking that "
+             "tokens tile the input. Its finished behaviours are the corpus fed to the real lexer hook, PullParser, "
+             "analysis report and SourceReport::write; TLC then judges every recorded execution (spec/Trace_Parse.tla, "
+             "predicates of spec/CookSpans.tla): tokens tile from the documented front-matter offset, every span, "
+             "fragment and label in bounds and on character boundaries, fragments equal the input slice, events ordered, "
+             "report renders. Token kinds are compared with the model's prediction as drift.",
+        design="6 (C04), 3.2", technique="TLA+ lexer model + TLC exhaustive short-string generation + trace validation of recorded spans",
+        note=PARSE_NOTE),
+    "C05": dict(
+        text="Same corpus as C04 plus `---` fence lines at every line position and front-matter documents with LF/CRLF/no "
+             "final newline. TLC judges each recorded event stream with Covered (spec/CookSpans.tla): the documented front "
+             "matter split and comment syntax are written in TLA+ independently of the implementation, and every letter "
+             "or digit outside comments must lie inside some event span whenever the stream has no error event.",
+        design="6 (C05)", technique="TLA+ conservation predicate (independent comment/front-matter scanner) judged by TLC over recorded event streams",
+        note=PARSE_NOTE),
     "C11": dict(
         text="TLC explores the line-at-a-time model of aisle::parse (spec/CookAisle.tla) exhaustively over every symbol "
              "string up to a bound and every file of pool lines, checking duplicate-freedom, span bounds, lookup and "
